@@ -1,7 +1,7 @@
 #!/bin/bash
 # run every check of a tier in sequence; prints one summary line per check
 tier="${1:-quick}"
-cd /verif
+cd "$(dirname "$0")"
 for c in C01 C02 C03 C04 C05 C06 C07 C08 C09 C10 C11 C12 C13 C14 C15 C16 C17 C18 C19; do
   out=$(./check $c $tier 2>&1); code=$?
   echo "$out" | grep -E "VIOLATION|KNOWN-FINDING|MACHINERY" | head -5
